@@ -7,6 +7,7 @@ import odl
 from odl.operator.operator import OpTypeError
 from odl.set.sets import Field
 
+from harness import funcs
 from harness import registry as reg
 from symnp.ctx import flat
 
@@ -30,6 +31,13 @@ def configs(tier, seed):
         if r.heavy and tier == 'quick':
             continue
         out.append(('op/' + r.name, dict(kind='op', recipe=r.name)))
+    # functionals are operators too: the call protocol of f, f.gradient and f.proximal(sigma)
+    for cid, rn, sk in funcs.instances(tier):
+        out.append(('fun/' + cid, dict(kind='fun', recipe=rn, sk=sk, _settings={'max_paths': 1500, 'merge_abs': True})))
+    # operators without a symbolic meaning (finite-difference approximations): the protocol on concrete floats,
+    # compared bit for bit (concrete facts)
+    for dt in ('float64', 'float32'):
+        out.append(('concrete-protocol/numerical-derivatives/' + dt, dict(kind='concrete', recipe=dt)))
     out.append(('alias-leaf/wrappers', dict(kind='alias')))
     out.append(('registry/complete', dict(kind='registry')))
     return out
@@ -94,7 +102,96 @@ class AliasOp(odl.Operator):
         return x
 
 
-def case(ctx, kind, recipe=None):
+def _protocol(ctx, tag, op, x, pre, finite=True):
+    """op(x) twice, op(x, out=garbage): same values, x untouched, out returned."""
+    res = op(x)
+    r0 = ctx.snapshot(res)
+    ctx.eq(tag + '/x-unchanged/out-of-place', x, pre)
+    if isinstance(op.range, Field):
+        ctx.fact(tag + '/result-in-range', res in op.range or np.isscalar(res) or hasattr(res, 't'),
+                 'result %r' % type(res))
+        if finite and ctx.sym:
+            from symnp.scalars import ENG
+            from symnp import terms as T
+            ts = [v.t for v in flat(r0) if hasattr(v, 't')]
+            finite = not ({n for n, _ in T.free_vars(ts)} & ENG.poison)
+        if finite:          # indicator functionals take the value +inf, which has no term
+            ctx.eq(tag + '/value-deterministic', op(x), r0)
+        else:
+            op(x)
+        ctx.eq(tag + '/x-unchanged/second-call', x, pre)
+        return
+    ctx.fact(tag + '/result-in-range', res in op.range)
+    y = ctx.garbage(op.range, 'g' + tag.replace('/', '_'))
+    ret = op(x, out=y)
+    ctx.fact(tag + '/returns-out', ret is y)
+    ctx.eq(tag + '/inplace=outofplace', y, r0)
+    ctx.eq(tag + '/x-unchanged/in-place', x, pre)
+
+
+def _fun_case(ctx, recipe, sk):
+    r, f = funcs.build(ctx, recipe, sk)
+    if isinstance(f.domain, Field) or not hasattr(f.domain, 'element'):
+        ctx.fact('field-domain', True)
+        return
+    x = ctx.element(f.domain, 'x')
+    if r.pre is not None:
+        r.pre(ctx, x)
+    pre = ctx.snapshot(x)
+    try:
+        _protocol(ctx, 'f', f, x, pre, finite=(r.kind != 'ind'))
+    except NotImplementedError:
+        ctx.fact('values-not-implemented', True)
+    for nm, get in (('gradient', lambda: f.gradient), ('proximal', lambda: f.proximal(0.5))):
+        try:
+            op = get()
+        except (NotImplementedError, ValueError):
+            continue            # not offered (e.g. the proximal of a negatively scaled functional is refused)
+        try:
+            _protocol(ctx, nm, op, x, pre)
+        except NotImplementedError:
+            ctx.fact(nm + '-not-implemented', True)
+
+
+def _concrete_protocol(ctx, dt):
+    from symnp import proxy
+    from odl.solvers.functional.derivatives import NumericalGradient, NumericalDerivative
+    was = proxy.STATE.armed
+    proxy.STATE.armed = False
+    try:
+        sp = odl.rn(4, dtype=dt)
+        f = odl.solvers.L2NormSquared(sp)
+        A = odl.MatrixOperator(np.array([[1.0, 2.0, 0.0, -1.0], [0.5, 0.0, 3.0, 1.0]], dtype=dt), domain=sp,
+                               range=odl.rn(2, dtype=dt))
+        pts = [np.array([0.3, -1.7, 2.9, 1e-9], dtype=dt), np.array([1.0 / 3, 2.0 / 7, -5.0 / 9, 123.456], dtype=dt)]
+        for method in ('forward', 'backward', 'central'):
+            for step in (None, 1e-6, 1e-3):
+                kw = {} if step is None else {'step': step}
+                ops = [('NumericalGradient', NumericalGradient(f, method=method, **kw))]
+                for pi, p0 in enumerate(pts):
+                    ops.append(('NumericalDerivative@%d' % pi, NumericalDerivative(A, sp.element(p0), method=method,
+                                                                                   **kw)))
+                for nm, op in ops:
+                    for pi, p0 in enumerate(pts):
+                        x = sp.element(p0.copy())
+                        before = x.asarray().copy()
+                        r1 = op(x)
+                        tag = '%s/%s/step=%s/pt%d' % (nm, method, step, pi)
+                        ctx.fact(tag + '/x-bitwise-unchanged', np.array_equal(x.asarray().view(np.uint8),
+                                                                              before.view(np.uint8)),
+                                 'x changed by %s' % (x.asarray() - before))
+                        ctx.fact(tag + '/result-in-range', r1 in op.range)
+                        y = op.range.element()
+                        ret = op(x, out=y)
+                        ctx.fact(tag + '/returns-out', ret is y)
+                        ctx.fact(tag + '/inplace=outofplace', np.array_equal(y.asarray(), r1.asarray()))
+                        ctx.fact(tag + '/x-bitwise-unchanged/in-place',
+                                 np.array_equal(x.asarray().view(np.uint8), before.view(np.uint8)))
+    finally:
+        proxy.STATE.armed = was
+
+
+def case(ctx, kind, recipe=None, sk=None):
     if kind == 'registry':
         missing = reg.unregistered()
         ctx.fact('every-operator-class-has-a-recipe-or-a-reason', not missing, 'unregistered: %s' % missing)
@@ -131,6 +228,10 @@ def case(ctx, kind, recipe=None):
             ctx.eq('x-unchanged-inplace/' + nm, x, pre)
         return
 
+    if kind == 'fun':
+        return _fun_case(ctx, recipe, sk)
+    if kind == 'concrete':
+        return _concrete_protocol(ctx, recipe)
     r = reg.by_name(recipe)
     op = r.build(ctx)
     x = sym_input(ctx, op.domain, 'x')
